@@ -36,8 +36,11 @@ def simple_shape(fn):
             return None
         if isinstance(n, (ast.FunctionDef, ast.Lambda, ast.ClassDef)) and n is not fn:
             return None
-    if fn.args.vararg or fn.args.kwarg or fn.args.kwonlyargs or fn.decorator_list:
+    if fn.args.kwarg or fn.args.kwonlyargs or fn.decorator_list:
         return None
+    if fn.args.vararg and any(isinstance(n, ast.Name) and n.id == fn.args.vararg.arg and not isinstance(
+            getattr(n, "_parent", None), ast.Starred) for n in ast.walk(fn)):
+        return None          # *args used other than by being passed on as *args
     rets = [n for n in ast.walk(fn) if isinstance(n, ast.Return)]
     if len(rets) <= 1 and (not rets or rets[0] is body[-1]):
         return body
@@ -169,6 +172,20 @@ class _Subst(ast.NodeTransformer):
         return n
 
 
+class _SpliceStarred(ast.NodeTransformer):
+    """f(a, *(x, y)) -> f(a, x, y)"""
+    def visit_Call(self, n):
+        self.generic_visit(n)
+        args = []
+        for a in n.args:
+            if isinstance(a, ast.Starred) and isinstance(a.value, ast.Tuple):
+                args.extend(a.value.elts)
+            else:
+                args.append(a)
+        n.args = args
+        return n
+
+
 def _stored(fn_or_stmts):
     out = set()
     nodes = fn_or_stmts if isinstance(fn_or_stmts, list) else [fn_or_stmts]
@@ -233,6 +250,11 @@ class Inliner:
                 for c in self.repo.mro(owner.cls):
                     m = c.methods.get(fn.attr)
                     if m is not None:
+                        # dynamic dispatch: a subclass of the caller's class that overrides the method makes the callee unknown here
+                        if any(fn.attr in sc.methods for sc in self.repo.subclasses(owner.cls) if sc is not owner.cls):
+                            if m.qual not in self.known:
+                                self.opaque.setdefault(caller.qual, set()).add(m.qual)
+                            return None, False
                         return m, True
         return None, False
 
@@ -338,8 +360,13 @@ class Inliner:
                 if j < 0:
                     return None
                 bound[p] = defaults[j]
+        extra_pos = None
         if len(call.args) > len(params):
-            return None
+            if fn.args.vararg is None:
+                return None
+            extra_pos = list(call.args[len(params):])
+        elif fn.args.vararg is not None:
+            extra_pos = []
         self.counter += 1
         k = self.counter
         stored_in_callee = _stored(body)
@@ -360,7 +387,12 @@ class Inliner:
             mapping[selfname] = A.clone(call.func.value)
         for v in sorted(stored_in_callee - set(params)):
             mapping[v] = v if v not in caller_names else "%s_inl%d" % (v, k)
-        new_body = [_Subst(mapping).visit(A.clone(s)) for s in body]
+        if extra_pos is not None:
+            # `*args` of the helper: the surplus positional arguments of this call site, spliced wherever the helper passes *args on
+            if not all(isinstance(a, (ast.Name, ast.Constant)) or A.dotted(a) is not None for a in extra_pos):
+                return None
+            mapping[fn.args.vararg.arg] = ast.Tuple(elts=[A.clone(a) for a in extra_pos], ctx=ast.Load())
+        new_body = [_SpliceStarred().visit(_Subst(mapping).visit(A.clone(s))) for s in body]
         repl = None
         if new_body and isinstance(new_body[-1], ast.Return):
             ret = new_body.pop()
